@@ -41,5 +41,6 @@ package store
 // Loading a topic row reports the stored high-water mark.
 //@ func (m TopicsPersistenceInterface) Get(topic string) (stopic *types.Topic, err error)
 //@   ensures [C01] err == nil && stopic != nil ==> stopic.SeqId == hwm[topic]
+//@   ensures [C01] err == nil && stopic == nil ==> hwm[topic] == 0 && rowMax[topic] == 0
 
 //@ func (s SubsPersistenceInterface) Update(topic string, user types.Uid, update map[string]interface{}) (err error)
